@@ -214,6 +214,8 @@ def run_once(spec, balancer=None):
                     bal = balancer if balancer is not None else make_balancer(cfg)
                     if spec.get("tap"):
                         bal.columns = list(bal.columns) + ["mcs", "id", "carbon_balance_check"]
+                    if spec.get("extra_columns"):
+                        bal.columns = list(bal.columns) + [c for c in spec["extra_columns"] if c not in bal.columns]
                     if source in ("csv", "json"):
                         from synrbl.SynUtils.batching import Dataset
 
@@ -224,6 +226,10 @@ def run_once(spec, balancer=None):
                     rows = bal.rebalance(arg2, output_dict=True, stats=stats)
                 res["raw_len"] = len(rows)
                 res["rows"] = [norm_row(r, reaction_col) for r in rows]
+                if spec.get("extra_columns"):
+                    res["extra"] = _jsonable([
+                        {c: (r[c] if c in r else "<absent>") for c in spec["extra_columns"]} if isinstance(r, dict) else None for r in rows
+                    ])
                 if spec.get("tap"):
                     res["tap_rows"] = _jsonable(
                         [
